@@ -142,6 +142,9 @@ func evalOutcome(oc *Outcome) []finding {
 	if len(oc.FdFinal) > 0 {
 		out = append(out, finding{"no descriptor remains after everything was closed", "life-fd-leak:" + t, strings.Join(oc.FdFinal, "; ")})
 	}
+	if len(oc.LatePackets) > 0 {
+		out = append(out, finding{"no packet callback for a media after it was de-registered (PAUSE)", "life-callback-after-pause:packet", strings.Join(oc.LatePackets, "; ")})
+	}
 	if len(oc.PeerFlow) > 0 {
 		out = append(out, finding{"a repeated PLAY leaves the session working (its write queue is running)", "life-no-packets-after-redundant-play", strings.Join(oc.PeerFlow, "; ")})
 	}
